@@ -32,6 +32,16 @@ def viaSpace (sp : String) (r g b : Int) : List Int × List Int :=
   else
     let (c, m, y, k) := rgbToCmyk8 r g b; ([c, m, y, k, 255], cmykaToRgba8 c m y k 255)
 
+def ratToFloat (q : Rat) : Float := Float.ofInt q.num / Float.ofNat q.den
+
+/-- tie of the exact-rational twin `rgbToHsvQ` (the theorems' model) to the implementation: the float32 hue, saturation,
+    value the real code produced are the exact-arithmetic values up to float32 rounding (1e-5) -/
+def hsvMatchesExact (orig mid : List Int) : Bool :=
+  let q (i : Nat) : Rat := (orig.getD i 0 : Int) / 255
+  let (h, s, v) := rgbToHsvQ (q 0) (q 1) (q 2)
+  let close (x : Rat) (bits : Int) : Bool := Float.abs (ratToFloat x - (f32 bits).toFloat) ≤ 1.0e-5
+  close h (mid.getD 0 0) && close s (mid.getD 1 0) && close v (mid.getD 2 0)
+
 /-- Spec clauses for one pixel: intermediate range (hsv/hsl) and round trip within the tolerance -/
 def pxSpec (sp : String) (orig mid back : List Int) : Option String :=
   let rangeBad : Option String :=
@@ -51,6 +61,7 @@ def pxSpec (sp : String) (orig mid back : List Int) : Option String :=
   | none =>
     let d := ((back.take 3).zip orig).foldl (fun m (x, o) => max m (x - o).natAbs) 0
     if back.length < 3 then some "shape"
+    else if sp == "hsv" && !hsvMatchesExact orig mid then some "hsv-differs-from-exact-arithmetic"
     else if d > tol sp then some (if tol sp = 0 then "round-trip-exact" else "round-trip-tolerance") else none
 
 /-- a whole plane of a modelled space: max diff, number of pixels failing a range clause, hash; plus first Spec failure -/
